@@ -520,13 +520,13 @@ fn raw_scalars(n: usize, r: &BigUint, rng: &mut Rng, nrand: usize) -> Vec<Vec<u6
     v
 }
 /// field scalars (always < r)
-fn field_scalars<F: PrimeField>(rng: &mut Rng, nrand: usize) -> Vec<F> {
+fn field_scalars<F: PrimeField>(rng: &mut Rng, nrand: usize, dense: bool) -> Vec<F> {
     let r = big(F::MODULUS.as_ref());
     let one = BigUint::from(1u32);
     let rbits = r.bits() as usize;
     let mut v: Vec<BigUint> = vec![BigUint::from(0u32), one.clone(), BigUint::from(2u32), BigUint::from(3u32), &r - &one, &r - 2u32, (&r - &one) / 2u32, (&r + &one) / 2u32, &r / 3u32];
     for i in 1..rbits + 1 {
-        if i < 12 || i % 7 == 0 || i % 64 == 0 || i % 64 == 63 || i % 64 == 1 || i + 3 > rbits {
+        if (dense && (i < 12 || i % 7 == 0)) || i < 4 || i % 32 == 0 || i % 64 == 63 || i % 64 == 1 || i + 2 > rbits {
             v.push(&one << i);
             v.push((&one << i) - &one);
             v.push((&one << i) + &one);
@@ -834,10 +834,10 @@ where
     } else {
         for (i, p) in pts[1..np].iter().enumerate() {
             let sel: Vec<Vec<u64>> = raws.iter().enumerate().filter(|(j, _)| (j + i) % (np - 1) == 0).map(|(_, s)| s.clone()).collect();
-            raw_ops(cv, out, rng, &[*p], &sel, 2);
+            raw_ops(cv, out, rng, &[*p], &sel, 1);
         }
     }
-    let ks: Vec<A::ScalarField> = field_scalars(rng, if thorough { 30 * scale } else { 4 * scale });
+    let ks: Vec<A::ScalarField> = field_scalars(rng, if thorough { 30 * scale } else { 4 * scale }, thorough);
     if thorough {
         scalar_ops(cv, out, rng, pts, &ks, 3);
     } else {
@@ -855,7 +855,8 @@ where
         wnaf_ops(cv, out, rng, &pts[1..np.min(3)], &kw, &ws, 4);
     } else {
         // every scalar once, windows rotating
-        for (j, k) in ks.iter().enumerate() {
+        for (j, k) in ks.iter().enumerate().skip(rng.below(2) as usize).step_by(2) {
+            let j = j / 2;
             wnaf_ops(cv, out, rng, &pts[1 + j % (np - 1)..2 + j % (np - 1)], &[*k], &ws[j % 9..j % 9 + 1], 3);
         }
     }
@@ -871,11 +872,11 @@ where
         batch_ops(cv, out, rng, &pts[..1], &kss[..1], &[1, 33], &[rb], false);
         batch_ops(cv, out, rng, &pts[2..3], &[cyc(&kb, 33), cyc(&kb, 1000)], &[33], &[rb], false);
     } else {
-        for (ns, ss) in [(1usize, rb), (2, rb - 1), (31, rb + 1), (32, 64 * cv.n), (33, 64 * cv.n + 5), (1000, rb), (1, 17), (1, 0)] {
-            batch_ops(cv, out, rng, &pts[1..2], &kss[..1], &[ns], &[ss], false);
+        let k2 = vec![kb[1..3].to_vec()];
+        for (ns, ss) in [(1usize, rb), (2, rb - 1), (32, rb + 1), (33, 64 * cv.n + 5), (1000, rb), (31, 17), (1, 0)] {
+            batch_ops(cv, out, rng, &pts[1..2], &k2, &[ns], &[ss], false);
         }
         batch_ops(cv, out, rng, &pts[1..2], &kss[1..], &[1], &[0, rb], false);
-        batch_ops(cv, out, rng, &pts[2..3], &[cyc(&kb, 33)], &[], &[], false);
     }
 }
 
@@ -991,7 +992,7 @@ fn main() {
         let cv = sw_cv::<M61a>("M61a", glv_tok::<M61a>());
         let pts = sw_some_points::<M61a>(&mut rng, if th { 8 } else { 3 });
         large(&cv, &mut out, &mut rng, &pts, th, 4);
-        let ks: Vec<FrM61> = field_scalars(&mut rng, if th { 2000 } else { 200 });
+        let ks: Vec<FrM61> = field_scalars(&mut rng, if th { 2000 } else { 200 }, true);
         glv_ops::<M61a>(&cv, &mut out, &mut rng, &pts[..1], &ks, true);
         let ks2: Vec<FrM61> = ks.iter().step_by(5).copied().collect();
         glv_ops::<M61a>(&cv, &mut out, &mut rng, &pts[1..], &ks2, false);
@@ -1002,7 +1003,7 @@ fn main() {
         let cv = sw_cv::<C>("bls12_381", glv_tok::<C>());
         let pts = sw_some_points::<C>(&mut rng, if th { 4 } else { 1 });
         large(&cv, &mut out, &mut rng, &pts, th, 1);
-        let ks: Vec<<C as CurveConfig>::ScalarField> = field_scalars(&mut rng, if th { 3000 } else { 300 });
+        let ks: Vec<<C as CurveConfig>::ScalarField> = field_scalars(&mut rng, if th { 3000 } else { 300 }, true);
         glv_ops::<C>(&cv, &mut out, &mut rng, &[], &ks, true);
         let ks2: Vec<_> = ks.iter().step_by(if th { 6 } else { 12 }).copied().collect();
         let np = pts.len();
@@ -1020,7 +1021,7 @@ fn main() {
     if want("secpglv") {
         let cv = sw_cv::<SecpGlv>("secpglv", glv_tok::<SecpGlv>());
         let pts = sw_some_points::<SecpGlv>(&mut rng, if th { 3 } else { 1 });
-        let ks: Vec<SecpFr> = field_scalars(&mut rng, if th { 2000 } else { 200 });
+        let ks: Vec<SecpFr> = field_scalars(&mut rng, if th { 2000 } else { 200 }, true);
         glv_ops::<SecpGlv>(&cv, &mut out, &mut rng, &[], &ks, true);
         let ks2: Vec<_> = ks.iter().step_by(if th { 8 } else { 16 }).copied().collect();
         glv_ops::<SecpGlv>(&cv, &mut out, &mut rng, &pts[1..3], &ks2, false);
@@ -1040,11 +1041,13 @@ fn main() {
         let raws = raw_scalars(cv.n, &cv.r, &mut rng, 2);
         let sel: Vec<Vec<u64>> = raws.iter().step_by(if th { 2 } else { 8 }).cloned().collect();
         raw_ops(&cv, &mut out, &mut rng, &pts[1..2], &sel, if th { 4 } else { 1 });
-        let ks: Vec<<C as CurveConfig>::ScalarField> = field_scalars(&mut rng, 2);
+        let ks: Vec<<C as CurveConfig>::ScalarField> = field_scalars(&mut rng, 2, th);
         let sel: Vec<_> = ks.iter().step_by(if th { 9 } else { 40 }).copied().collect();
         scalar_ops(&cv, &mut out, &mut rng, &pts[1..2], &sel, if th { 3 } else { 1 });
         wnaf_ops(&cv, &mut out, &mut rng, &pts[1..2], &sel[..sel.len().min(4)], &[2, 4, 7], 2);
-        batch_ops(&cv, &mut out, &mut rng, &pts[1..2], &[sel[..sel.len().min(3)].to_vec()], &[1, 1000], &[cv.rbits], false);
+        if th {
+            batch_ops(&cv, &mut out, &mut rng, &pts[1..2], &[sel[..sel.len().min(3)].to_vec()], &[1, 1000], &[cv.rbits], false);
+        }
     }
     if want("ed_on_bls12_381") {
         type C = ark_test_curves::ed_on_bls12_381::EdwardsConfig;
